@@ -4,6 +4,7 @@ import Driver.Json
 import Driver.Sym
 import Driver.Conv
 import Driver.CompileDrv
+import Driver.CompileDis
 import Driver.SemDrv
 import Driver.Pos
 import Driver.V1
@@ -33,6 +34,7 @@ def dispatch (line : String) : String :=
   | "disable" :: args => handleDisable args
   | "conv" :: args => handleConv args
   | "compile" :: args => handleCompile args
+  | "compiled" :: args => handleCompileDis args
   | "sem" :: args => handleSem args
   | "pos" :: args => handlePos args
   | "v1" :: args => handleV1 args
